@@ -162,31 +162,16 @@ Proof.
     - assert (length (skipn k st) = 0) by (rewrite E; reflexivity). rewrite skipn_length in H. lia.
     - exists c, rest. split; [reflexivity|]. rewrite Forall_forall in Hst. apply Hst.
       rewrite <- (firstn_skipn k st), E. apply in_or_app. right. left. reflexivity. }
-  assert (Hfin : forall removed s1 a1 rest, s1 < nstates tb ->
-            exists st1 s1',
-              match top ((s1, a1) :: rest) with
-              | None => RecPanic 10
-              | Some s1 =>
-                let ea := AErr next removed (expected tb s1) in
-                match action_at tb s1 (t_err tb) with
-                | None => RecPanic 11
-                | Some (Some (Shift s2)) =>
-                  match skip_input tb input fuel s2 next pos with
-                  | None => RecFuel
-                  | Some (true, next', pos') => Recovered ((s2, ea) :: (s1, a1) :: rest) next' pos'
-                  | Some (false, _, pos') => NotRecovered ((s2, ea) :: (s1, a1) :: rest) pos'
-                  end
-                | Some _ => NotRecovered ((s1, a1) :: rest) pos
-                end
-              end = NotRecovered st1 pos /\ top st1 = Some s1').
-  { intros removed s1 a1 rest Hc. cbn [top].
-    destruct (action_at_some s1 (t_err tb) Hc (sh_err _ _ _ SH)) as [x Hx]. rewrite Hx.
-    destruct x as [[s2|p|]|]; try (eexists; eexists; split; [reflexivity|reflexivity]).
-    exfalso. exact (NES _ _ Hx). }
-  destruct (find_recover tb st 0) as [k|] eqn:E.
-  - apply find_recover_lt in E. destruct (Hsub k) as ([s1 a1] & rest & Hs & Hc); [lia|].
-    rewrite Hs. apply Hfin. exact Hc.
-  - destruct st as [|[s1 a1] rest]; [congruence|]. inversion Hst; subst. apply Hfin. assumption.
+  match goal with |- context [let '(_, _) := ?m in _] => destruct m as [removed st1] eqn:Epr end.
+  assert (Hst1 : exists s1 a1 rest, st1 = (s1, a1) :: rest /\ s1 < nstates tb).
+  { destruct (find_recover tb st 0) as [k|] eqn:E.
+    - apply find_recover_lt in E. destruct (Hsub k) as ([s1 a1] & rest & Hs & Hc); [lia|].
+      inversion Epr; subst. eauto.
+    - inversion Epr; subst. destruct st1 as [|[s1 a1] rest]; [congruence|]. inversion Hst; subst. eauto. }
+  destruct Hst1 as (s1 & a1 & rest & -> & Hc). cbn [top].
+  destruct (action_at_some s1 (t_err tb) Hc (sh_err _ _ _ SH)) as [x Hx]. rewrite Hx.
+  destruct x as [[s2|p|]|]; try (eexists; eexists; split; [reflexivity|reflexivity]).
+  exfalso. exact (NES _ _ Hx).
 Qed.
 
 Lemma tok_at_eof pos : ttype (tok_at input pos) = EOFT -> length input <= pos.
